@@ -21,7 +21,8 @@ func New() hctx.Map {
 	}
 }
 
-// Debug by verbosely printing out using 'pre' tags.
+// Debug by verbosely printing out using 'pre' tags. The printed form of the
+// value is text, not markup: it is escaped, only the 'pre' tags are HTML.
 func Debug(v interface{}) template.HTML {
-	return template.HTML(fmt.Sprintf("<pre>%s</pre>", Inspect(v)))
+	return template.HTML(fmt.Sprintf("<pre>%s</pre>", template.HTMLEscapeString(Inspect(v))))
 }
